@@ -49,8 +49,9 @@ def litexpr(t, helpers):
         return "map[%s]int{%s: 1}" % (e, litexpr(inner, helpers))
     if len(inner) > 1 and inner[0] != "ptr" or inner == ["struct"]:
         return "&" + litexpr(inner, helpers)
+    inner_lit = litexpr(inner, helpers)
     name = "np%d" % len(helpers)
-    helpers.append("func %s() => *%s {\n\tp := new(%s)\n\t*p = %s\n\treturn p\n}\n\n" % (name, e, e, litexpr(inner, helpers)))
+    helpers.append("func %s() => *%s {\n\tp := new(%s)\n\t*p = %s\n\treturn p\n}\n\n" % (name, e, e, inner_lit))
     return name + "()"
 
 
@@ -117,6 +118,17 @@ def render(sk):
         body = "\tw := W{n: 1, f: %s}\n\tx := w.f\n\tprintln(%s)\n" % (lit, obs)
     elif c == "assign-through-ptr":
         body = "\tx: %s\n\tp := &x\n\t*p = %s\n\tprintln(%s)\n" % (wt, lit, obs)
+    elif c == "defer-result":
+        extra = "func two() => (%s, f64, int) {\n\tz: %s\n\treturn z, 1.5, 1\n}\n\n" % (wt, wt)
+        body = "\tdefer two()\n\tprintln(\"ok\")\n"
+    elif c == "defer-method-result":
+        extra = "type H :struct {\n\tf: %s\n}\n\nfunc H.Get() => (i64, %s) {\n\treturn 1, this.f\n}\n\n" % (wt, wt)
+        body = "\th := &H{}\n\tdefer h.Get()\n\tprintln(\"ok\")\n"
+    elif c == "defer-closure-result":
+        body = "\tz: %s\n\tf := func() => (%s, bool, f64) {\n\t\treturn z, true, 2.5\n\t}\n\tdefer f()\n\tprintln(\"ok\")\n" % (wt, wt)
+    elif c == "discard-result":
+        extra = "func two() => (f64, %s) {\n\tz: %s\n\treturn 1.5, z\n}\n\n" % (wt, wt)
+        body = "\ttwo()\n\tprintln(\"ok\")\n"
     elif c == "eq-self":
         body = "\tx: %s\n\tprintln(x == x)\n" % wt
     else:
@@ -139,7 +151,7 @@ def skeletons(chk, tier):
 
 def run(chk):
     wa = common.build_wa()
-    chk.assume("feature set: the types of WaGen.tla (nine base types under up to %s of pointer, slice, array, map-value and map-key constructors) in its 23 contexts "
+    chk.assume("feature set: the types of WaGen.tla (nine base types under up to %s of pointer, slice, array, map-value and map-key constructors) in its 27 contexts "
                "(declarations with and without initialiser, globals, parameters, results, fields, elements, map values, closures, boxing, dereference, multiple results, "
                "method receivers, deferred-call arguments, range, append, ==); validation by V8's WebAssembly.validate (WABT is not installed)"
                % ("one level" if chk.tier == "quick" else "two levels"))
